@@ -391,6 +391,15 @@ func genC09(tier string, seed uint64, emit func(string)) {
 		acts = append(acts, "obs", "ping:t", "ping:p", "stop", "obs")
 		emit(lifeLine(cfg, acts))
 	}
+	// the CA is replaced while the server runs (certificate files re-read, then Restart or Stop/Start, as on SIGHUP): from
+	// the next start on the clients of the retired CA are foreign, and only until then the clients of the new CA are
+	for _, cfg := range []string{"plain tlsfiles", "tlsfiles cn=client", "plain tlsfiles cn=client pw=secret"} {
+		emit(lifeLine(cfg, []string{"start", "ping:t", "tlsbad:foreign", "setca:foreign", "ping:t", "tlsbad:foreign", "restart", "ping:t:good", "tlsbad:good", "tlsbad:foreign",
+			"tlsbad:wrongcn", "tlsbad:none", "ping:p", "obs", "setca:main", "tlsbad:foreign", "restart", "ping:t", "tlsbad:foreign", "stop", "obs"}))
+		emit(lifeLine(cfg, []string{"setca:foreign", "start", "tlsbad:good", "tlsbad:foreign", "tlsbad:expired", "obs", "stop", "setca:main", "start", "ping:t", "tlsbad:foreign", "obs",
+			"setca:foreign", "setca:main", "restart", "ping:t", "tlsbad:foreign", "stop", "obs"}))
+		emit(lifeLine(cfg, []string{"start", "open:t:g", "setca:foreign", "cmd:g", "restart", "alive:g", "tlsbad:good", "tlsbad:foreign", "stop", "obs"}))
+	}
 	if tier == "thorough" {
 		r := NewRng(seed)
 		for i := 0; i < 300; i++ {
@@ -425,18 +434,40 @@ func oracleC09(cfg []string, results []string) string {
 	}
 	running := false
 	calls := 0
+	// the CA in the configuration and the CA in force (the one configured when the server was last started)
+	cfgCA, ca := "main", "main"
+	issuer := func(kind string) string {
+		switch kind {
+		case "foreign":
+			return "foreign"
+		case "good", "wrongcn", "intercn", "straycn", "straygood", "expired":
+			return "main"
+		}
+		return "-"
+	}
 	for i, r := range results {
 		kv := strings.SplitN(r, "=", 2)
 		a, v := kv[0], kv[1]
 		f := strings.Split(a, ":")
 		switch f[0] {
+		case "setca":
+			cfgCA = f[1]
 		case "start", "restart":
-			running = v == "ok"
+			if v == "ok" {
+				ca = cfgCA
+			}
+			running = running || v == "ok"
 		case "stop":
 			running = false
 		case "tlsbad":
 			kind := f[1]
 			mustReject := kind != "stall" && !((kind == "wrongcn" || kind == "intercn" || kind == "straycn" || kind == "straygood") && !rule)
+			if kind == "good" || kind == "foreign" {
+				mustReject = false
+			}
+			if kind != "stall" && issuer(kind) != ca {
+				mustReject = true
+			}
 			if mustReject && strings.HasPrefix(v, "served") {
 				return fmt.Sprintf("fail:a TLS client with credentials '%s' was served (%s)", kind, v)
 			}
@@ -448,6 +479,13 @@ func oracleC09(cfg []string, results []string) string {
 			}
 		case "ping", "open":
 			enabled := (f[1] == "p" && hasTok(cfg, "plain")) || (f[1] == "t" && hasTok(cfg, "tls"))
+			if f[1] == "t" && ca != "main" {
+				// the well-behaved client's certificate was issued by the CA that has been retired
+				if v == "ok" {
+					return fmt.Sprintf("fail:a client of the retired CA is still served after the server was restarted with another CA (%s at step %d)", r, i)
+				}
+				continue
+			}
 			if running && enabled && v != "ok" && !(f[1] == "p" && rule && pw) {
 				return fmt.Sprintf("fail:a well-behaved client is no longer served after the faulty clients so far (%s at step %d)", r, i)
 			}
